@@ -474,7 +474,7 @@ func (jsonCodec) Unmarshal(b []byte, v any) error {
 	return protojson.Unmarshal(b, v.(proto.Message))
 }
 
-func init() { encoding.RegisterCodec(jsonCodec{}) }
+var _ encoding.Codec = jsonCodec{}
 
 func lowerHeader(h http.Header) map[string][]string {
 	out := map[string][]string{}
@@ -681,7 +681,7 @@ func (e *Env) doGRPC(c *Case, id string) *Obs {
 	}
 	var opts []grpc.CallOption
 	if c.Codec == "json" {
-		opts = append(opts, grpc.CallContentSubtype("json"))
+		opts = append(opts, grpc.ForceCodec(jsonCodec{})) // per call, nothing registered globally
 	}
 	o := &Obs{BinDecoded: true}
 	var hmd, tmd metadata.MD
